@@ -471,7 +471,18 @@ fn loopback(acc: &dyn Acceptor, rq: &Pdu) -> Result<WireObs, String> {
         }
         let mut client = connect(lst.addr).map_err(|e| format!("connect: {}", e))?;
         client.write_all(&bytes).map_err(|e| format!("send request: {}", e))?;
-        let server_sock = lst.accept(Duration::from_secs(5)).map_err(|e| format!("accept: {}", e))?;
+        // only this case's own connection is served: anything else that reached the listener (a
+        // stray connect from another process to a reused port) is dropped unanswered
+        let mine = client.local_addr().map_err(|e| format!("local addr: {}", e))?;
+        let mut server_sock = lst.accept(Duration::from_secs(5)).map_err(|e| format!("accept: {}", e))?;
+        let mut strays = 0;
+        while server_sock.peer_addr().ok() != Some(mine) {
+            strays += 1;
+            if strays > 8 {
+                return Err("foreign connections on the loopback listener".into());
+            }
+            server_sock = lst.accept(Duration::from_secs(5)).map_err(|e| format!("accept: {}", e))?;
+        }
         let res = acc.establish_on(server_sock);
         let answer = match read_raw_pdu(&mut client) {
             Ok(raw) => Some(
